@@ -2,7 +2,7 @@ SPECIFICATION Spec
 CONSTANTS
   MaxRefs = 2
   Kinds = {"void", "copy", "move"}
-  Bodies = {"none", "destroyCtx", "dropOthers"}
+  Bodies = {"none", "destroyCtx", "dropOthers", "refinish"}
   MaxHist = 99
 VIEW View
 ACTION_CONSTRAINT EmitBehaviour
